@@ -1484,6 +1484,13 @@ M('C18', 'EvolveBraKet.init_algorithm delegates before reading resume_data_bra (
   "    def init_algorithm(self, **kwargs):\n        resume_data_bra = None\n", "    def init_algorithm(self, **kwargs):\n        super().init_algorithm(**kwargs)\n        resume_data_bra = None\n",
   'RESUME-read-before-consume')
 
+M('C19', 'possible_multi_couplings does not re-wrap x0 after the boundary shift (round-5 seed a)', 'tenpy/models/lattice.py',
+  "            lat_ijkl_shifted[:, :, 0] -= shift\n            lat_ijkl[:, :, 0] = np.mod(lat_ijkl_shifted[:, :, 0], Ls[0])\n", "            lat_ijkl_shifted[:, :, 0] -= shift\n",
+  'GEOM-shift-rewrap')
+M('C19', 'mps2lat_values sorts raw (possibly negative) axes (round-5 seed b)', 'tenpy/models/lattice.py',
+  "            axes = [(ax + A.ndim if ax < 0 else ax) for ax in axes]\n            for ax in reversed(sorted(axes)):", "            for ax in sorted(axes, reverse=True):",
+  'GEOM-axes-normalised')
+
 # ---------------------------------------------------------------- C16 / C19
 M('C16', 'GMRES restart: relative residual norm used for normalisation (round-3 seed b)', KRY,
   """        self.total_error.append([npc.norm(self.rs[-1]) / self.b_norm])
